@@ -440,6 +440,63 @@ fn internal_iter<X: PartialEq + std::fmt::Debug + Clone, I: Iterator<Item = X> +
         if skipped != exp_skipped {
             bail!(format!("{}-skip-step_by", what), "{} from node {}: skip(1).step_by(2) yields {:?}, expected {:?}", what, usize::from(start), skipped, exp_skipped);
         }
+        // the searching consumers (any / all / find / position / find_map, also through by_ref): they stop right
+        // BEHIND the element that decided them, and report the end when nothing decides them
+        let hsize = it.size_hint();
+        if hsize.0 > rest.len() || hsize.1.map_or(false, |u| u < rest.len()) {
+            bail!(format!("{}-size_hint", what), "{} from node {}: after {} next() calls size_hint() = {:?} but {} items remain", what, usize::from(start), j, hsize, rest.len());
+        }
+        let mut targets: Vec<usize> = Vec::new();
+        if !rest.is_empty() {
+            targets.push(0);
+            targets.push(rest.len() - 1);
+            targets.push(rest.len() / 2);
+        }
+        for &t in &targets {
+            // the first occurrence decides (sequences of edges / ids have no repeats, but stay general)
+            let first = rest.iter().position(|x| *x == rest[t]).unwrap();
+            let after: Option<&X> = rest.get(first + 1);
+            macro_rules! search {
+                ($name:expr, $call:expr, $expect:expr) => {{
+                    let mut s = it.clone();
+                    let mut steps = 0usize;
+                    #[allow(unused_mut)]
+                    let mut pred = |x: &X| {
+                        steps += 1;
+                        if steps > bound {
+                            panic!("a searching consumer does not end");
+                        }
+                        *x == rest[t]
+                    };
+                    let got = $call(&mut s, &mut pred);
+                    let next = s.next();
+                    if got != $expect || next.as_ref() != after {
+                        bail!(format!("{}-{}", what, $name), "{} from node {}: after {} next() calls `{}` looking for {:?} returned {:?} and the following next() = {:?}; the remaining sequence is {:?}", what, usize::from(start), j, $name, rest[t], got, next, rest);
+                    }
+                }};
+            }
+            search!("any", |s: &mut I, p: &mut dyn FnMut(&X) -> bool| format!("{:?}", s.any(|x| p(&x))), format!("{:?}", true));
+            search!("by_ref-any", |s: &mut I, p: &mut dyn FnMut(&X) -> bool| format!("{:?}", s.by_ref().any(|x| p(&x))), format!("{:?}", true));
+            search!("all", |s: &mut I, p: &mut dyn FnMut(&X) -> bool| format!("{:?}", s.all(|x| !p(&x))), format!("{:?}", false));
+            search!("find", |s: &mut I, p: &mut dyn FnMut(&X) -> bool| format!("{:?}", s.find(|x| p(x))), format!("{:?}", Some(rest[t].clone())));
+            search!("position", |s: &mut I, p: &mut dyn FnMut(&X) -> bool| format!("{:?}", s.position(|x| p(&x))), format!("{:?}", Some(first)));
+            search!("find_map", |s: &mut I, p: &mut dyn FnMut(&X) -> bool| format!("{:?}", s.find_map(|x| if p(&x) { Some(7u8) } else { None })), format!("{:?}", Some(7u8)));
+            search!("skip_while", |s: &mut I, p: &mut dyn FnMut(&X) -> bool| format!("{:?}", s.by_ref().skip_while(|x| !p(x)).next()), format!("{:?}", Some(rest[t].clone())));
+        }
+        {
+            // nothing matches: every element is looked at once, then the end - and the iterator stays at its end
+            let mut s = it.clone();
+            let mut seen = 0usize;
+            let r = (s.any(|_| { seen += 1; seen > bound }), s.next());
+            if r.0 || r.1.is_some() || seen != rest.len() {
+                bail!(format!("{}-any-none", what), "{} from node {}: after {} next() calls any(never) looked at {} items of {}, returned {} and next() afterwards = {:?}", what, usize::from(start), j, seen, rest.len(), r.0, r.1);
+            }
+            let mut s = it.clone();
+            let r = (s.find(|_| false), s.position(|_| false), s.next());
+            if r.0.is_some() || r.1.is_some() || r.2.is_some() {
+                bail!(format!("{}-find-none", what), "{} from node {}: find/position with a predicate that never holds returned {:?} / {:?}, next() afterwards = {:?}", what, usize::from(start), r.0, r.1, r.2);
+            }
+        }
     }
     Ok(())
 }
@@ -1070,6 +1127,22 @@ pub fn c11_lookups<P: Payload>(st: &mut State<P>, foreign: &Arena<P>) -> R {
         }
         if arena.get_node_id_at(NonZeroUsize::new(usize::MAX).unwrap()).is_some() {
             bail!("get_node_id_at-out-of-range", "get_node_id_at(usize::MAX) is Some");
+        }
+        // positions whose LOW bits name a slot of this arena (a narrowed index type would find it)
+        for shift in [8u32, 15, 16, 24, 31, 32, 33, 48, 63] {
+            if shift >= usize::BITS {
+                continue;
+            }
+            for low in [1usize, n / 2 + 1, n.max(1)] {
+                let p = (1usize << shift).wrapping_add(low);
+                if p <= n || p == 0 {
+                    continue;
+                }
+                if let Some(id) = arena.get_node_id_at(NonZeroUsize::new(p).unwrap()) {
+                    bail!("get_node_id_at-out-of-range", "get_node_id_at(2^{} + {}) = {:?} with count() = {}", shift, low, id, n);
+                }
+                obs += 1;
+            }
         }
         // out-of-range ids, obtained legitimately from a clone grown further
         let mut bigger = arena.clone();
